@@ -982,6 +982,38 @@ def request_target_evaluation(ctx, rep, rule="R05g"):
         problems.extend(render_problems.get(qual, [])[:2])
         rep.add(rule, f"{h.qualname}: request targets map to the selector they name [{n} targets]", not problems, ctx.where(h), "; ".join(problems[:3]),
                 key=f"{rule}|{h.qualname}")
+    # the Gopher family: the selector field of a menu line comes back as the request line
+    for qual in ("protocols.rfc1436.GopherProtocol", "protocols.gopherp.GopherPlusProtocol"):
+        P = ctx.cls(qual)
+        init = prog.resolve_method(P, "__init__") if P else None
+        while init is not None and len(init.params) < 2 and init.node.args.vararg is not None and init.cls is not None:
+            init = prog.resolve_method(P, "__init__", after=init.cls)
+        if init is None or len(init.params) < 2:
+            continue
+        problems, n = [], 0
+        suffix = "\t+" if qual.endswith("GopherPlusProtocol") else ""
+        for sel in names + ["URL:http://ex.example/a//b?c", "/URL:http://ex.example/x", "URL:mailto:someone@ex.example", "/dir/sub"]:
+            w = Walker(prog, ctx.resolver, exact_loops=True, unroll=8,
+                       inline=lambda fn, t, d: d < 4 and (t.bound_cls is not None or fn.name == "__init__") and fn.name not in ("log",))
+            got = set()
+            try:
+                for p in w.run(init, P, env={init.params[1]: Const(sel + suffix + "\r\n")}):
+                    if p.kind == "raise":
+                        got.add(f"<{p.value}>")
+                        continue
+                    v = p.state.facts.get("self.selector")
+                    got.add(v.value if v is not None and v.kind == "const" else None)
+            except Exception:
+                got = {None}
+            if None in got or not got:
+                continue
+            n += 1
+            want = sel if sel.startswith("/") else "/" + sel
+            if got != {want}:
+                problems.append(f"the selector {sel!r} of a menu line, sent back as the request, reaches the handlers as {sorted(map(str, got))} instead of {want!r}")
+        if n:
+            rep.add(rule, f"{init.qualname} for {P.name}: a listed selector comes back as itself [{n} selectors]", not problems, ctx.where(init),
+                    "; ".join(problems[:2]), key=f"{rule}|{qual}|selector")
     # WAP renders what HTTP renders, below its prefix
     wap, http = ctx.cls("protocols.wap.WAPProtocol"), ctx.cls("protocols.http.HTTPProtocol")
     if wap is not None and http is not None:
